@@ -1,6 +1,7 @@
 import Lean.Data.Json
 import Gene.Engine
 import Gene.Conv
+import Gene.Yaml
 import Gene.Spec.Admit
 import Gene.Spec.Scan
 /-! Line-protocol driver: one JSON object per input line, one JSON answer per line.
@@ -396,6 +397,23 @@ def ruleOutJson (r : Rule) : Json :=
     ("matches", Json.arr (ms.map (fun p => Json.arr #[Json.str p.1, Json.str p.2]))),
     ("condition", match r.condition with | some c => sJ c | none => Json.null)]
 
+partial def jYaml (j : Json) : E Yaml := do
+  match jOpt j "s" with
+  | some s => do
+    let t ← (← s.getArrVal? 0).getStr?
+    let p ← (← s.getArrVal? 1).getBool?
+    pure (.scalar t.toList p)
+  | none =>
+  match jOpt j "seq" with
+  | some a => do pure (.seq (← (← a.getArr?).toList.mapM jYaml))
+  | none =>
+  match jOpt j "map" with
+  | some a => do
+    let kvs ← (← a.getArr?).toList.mapM (fun kv => do
+      pure (← jYaml (← kv.getArrVal? 0), ← jYaml (← kv.getArrVal? 1)))
+    pure (.map kvs)
+  | none => throw "bad yaml tree"
+
 /-- load template documents, then rule documents, build the engine, scan the events in order -/
 def runScenario (x : Ext) (tdocs : List Tpls) (rules : List Rule) (events : List Event) : Json :=
   let c0 : Compiler := {}
@@ -578,6 +596,31 @@ def handle (j : Json) : E Json := do
     let ips ← jStrList (← j.getObjVal? "ips")
     let outs := [valueJson (.bool true), valueJson (.bool false)] ++ ips.map (fun s => valueJson (.str s))
     pure (Json.mkObj [("model", Json.arr outs.toArray)])
+  | "yaml_load" =>
+    let t ← match jOpt j "ext" with
+      | none => pure ({} : Tables)
+      | some e => jTables e
+    let x : Ext :=
+      { fparse := fun s => (t.fp.lookup s).getD none
+        rxOk := fun p => match t.rx.lookup p with
+          | some (ok, _) => ok
+          | none => false
+        rxMatch := fun _ _ => false }
+    let y ← jYaml (← j.getObjVal? "doc")
+    let r : Json := match M.deRule y with
+      | .error _ => Json.mkObj [("load", "serde")]
+      | .ok rule =>
+        -- serialise / parse back at tree level
+        let same : Bool := match M.deRule (M.serRule rule) with
+          | .ok r2 => r2 == rule
+          | .error _ => false
+        if M.Rule.isDisabled rule then
+          Json.mkObj [("ok", Json.mkObj [("name", sJ rule.name), ("disabled", true), ("severity", Json.null), ("count", (0 : Nat))]), ("roundtrip", same)]
+        else match M.compileInto x rule with
+          | .ok cr => Json.mkObj [("ok", Json.mkObj [("name", sJ rule.name), ("disabled", false), ("severity", Json.num (Int.ofNat cr.severity)), ("count", (1 : Nat))]), ("roundtrip", same)]
+          | .err => Json.mkObj [("compile", "rule"), ("roundtrip", same)]
+          | .panic => Json.str "panic"
+    pure (Json.mkObj [("model", r)])
   | "load_text" =>
     -- whole-text inputs go through serde_yaml, which is not modelled: the model's answer is the
     -- statement of C15_load / C15_compile / compileInto_no_panic (no panic outcome is reachable)
